@@ -67,7 +67,7 @@ def _oc(ev, call=1):
     if ev is None:
         return None
     oc = ev.get("outcome" if call == 1 else "outcome2")
-    if oc is None or oc in IGNORED or oc.startswith("HARNESS"):
+    if oc is None or oc in IGNORED or oc.startswith("HARNESS") or oc.startswith("SKIPPED"):
         return None
     return oc
 
